@@ -27,7 +27,7 @@ RULE = ("in-memory mapsets: built from objects (1-3 charts sharing one tempo lis
         "measure lines or on 1/16 beats, objects on grids of denominators 1-9,12,16,32,48,64,96 and off-grid, measures "
         "needing > 384 rows, empty leading measures, selectable False, header strings, fractional-millisecond offsets), "
         "obtained by SMMapSet.read of a generated text, by OsuToSM / QuaToSM conversion of a generated osu!mania / Quaver map, "
-        "and by rate(); tempo rows out of time order (reversed / shuffled / appended); histories on one object: write, then an in-place edit through the list property setters (bpm scaling, shifting the whole timeline), an appended tempo row, rate() or nothing, then write again — every write is judged; non-trivial = at least 3 objects and (a hold/roll, or 2 tempo points, or an empty "
+        "and by rate(); tempo rows out of time order (reversed / shuffled / appended); long unsorted tempo lists with ties (7 % of the stream, half of the search stream: 17-200 rows shuffled / reversed / stacked in sorted blocks / a few rows moved, 0-5 groups of two or three rows at exactly one offset each with its own bpm - the later row of the list is in force -, objects in 3-50 measures spread over the whole timeline, at least one after the last tie); both entry points: write() and, for 30 % of the cases, write_file(path) with the text taken from the file as it is on disk and the read-back clause through read_file(path); histories on one object: write, then an in-place edit through the list property setters (bpm scaling, shifting the whole timeline), an appended tempo row, rate() or nothing, then write again — every write is judged; non-trivial = at least 3 objects and (a hold/roll, or 2 tempo points, or an empty "
         "leading measure, or a capped measure)")
 ASSUMPTIONS = [
     "header strings contain no ';' ':' '#' '//' and no surrounding whitespace (MSD has no escape in this writer)",
@@ -35,7 +35,8 @@ ASSUMPTIONS = [
     "float rendering is Python repr (round-trips); `round(beat, 6)` and `int(num * (den_max/den))` are modelled exactly; the shift caused by the 6-decimal #BPMS beats (<= 5e-7 beat per tempo change times the change of beat length) is added to the 1/96-beat limit",
     "the 1/96-beat class: one row of a capped measure, measured with the longest beat length between the object and its written row (an object on a tempo change is written into the slower segment before it), plus the snapping distance of an off-grid time, plus the shift caused by tempo points that are not on the grid (written beat minus exact beat, times the change of beat length; the active point's own snapping with the full beat length)",
     "every write of a history is classified on the chart as it is at that write (content, model call, domain, tolerance class); a time within the float band (2^-40 relative, as in C10) of the midpoint of two neighbouring grid points or of a tempo point may be snapped to either side: the chart is then judged in the 1/96-beat class and a different row count is a float boundary",
-    "tempo points are written at distinct beats (two points closer than the grid / six decimals resolve have no .sm form)",
+    "tempo points at different offsets are written at distinct beats (two points closer than the grid / six decimals resolve have no .sm form); tempo rows at exactly one offset are one tempo point: the row that comes later in the list is in force (to_timing_map sorts stably, the sweep takes the last row of equal offsets; in the file the later #BPMS entry of a beat is in force - Spec.SM.changesOf sorts stably, Props/C03 tie_later_wins) - such lists are judged by (S) but are outside `dom`",
+    "header strings contain no carriage return (read_file decodes with universal newlines: file_cr_counterexample)",
 ]
 TRUSTED_EXTRA = ["the exactness / 1/96-beat comparison of (S) is evaluated in Python with Fractions on the denotation returned by the driver"]
 
@@ -74,7 +75,8 @@ def time_of(tempo, t0, beat):
     return T
 
 
-def gen_chart(rng, tempo, t0, style):
+def gen_chart(rng, tempo, t0, style, measures=None):
+    """`measures`: the measures that receive objects (default: 1-5 consecutive ones after 0-3 empty leading ones)"""
     typ = rng.choice(sorted(KEYED))
     keys = KEYED[typ]
     nm = rng.choice([1, 2, 3, 5])
@@ -82,8 +84,8 @@ def gen_chart(rng, tempo, t0, style):
     notes = []
     used = set()
     longs = {}                                          # column -> [(start beat, end beat)]: holds/rolls of a column never overlap
-    for m in range(lead, lead + nm):
-        if rng.random() < 0.15 and m > lead:
+    for m in (range(lead, lead + nm) if measures is None else measures):
+        if measures is None and rng.random() < 0.15 and m > lead:
             continue                                    # an empty measure in the middle
         if style == "capped":
             dens = [rng.choice([32, 48, 64, 96, 7, 9, 5]) for _ in range(3)]
@@ -124,8 +126,105 @@ def gen_chart(rng, tempo, t0, style):
                 radar=[R(x) for x in rng.choice([[0.0] * 5, [0.5, 1.0, 0.25, 0.0, 0.125], [1.0]])], notes=notes)
 
 
+def gen_long(rng, tier):
+    """LONG UNSORTED LISTS WITH TIES: a tempo list of 17-200 rows that are not in time order, one or several groups
+    of rows at exactly one offset (the row that comes later in the list is the one in force, as with
+    `to_timing_map`'s stable sort and as a later `#BPMS` entry on one beat) - where an unstable sort really permutes
+    equal keys (numpy's quicksort is an insertion sort up to 16 elements) -, objects (also long, unsorted note lists)
+    spread over the whole timeline so that every tempo segment carries some.  A row of `bpms` is
+    [offset, bpm, key]: the rows are listed in time order, the in-memory order is the stable order of the keys."""
+    mode = rng.choice(["line", "line", "line", "mid"])
+    n = rng.choice([17, 18, 20, 24, 33, 40]) if rng.random() < 0.7 else rng.randint(17, 200 if tier == "thorough" else 120)
+    ngroups = rng.choice([1, 1, 2, 3, 5]) if rng.random() < 0.9 else 0
+    # distinct positions
+    tempo = [(Fr(0), Fr(rng.choice(E_BPMS)))]
+    b = Fr(0)
+    npos = max(2, n - ngroups - (1 if ngroups and rng.random() < 0.3 else 0))
+    for _ in range(npos - 1):
+        b += 4 * rng.randint(1, 2) if mode == "line" else Fr(rng.randint(1, 64), 16)
+        bpm = Fr(rng.choice(E_BPMS)) if rng.random() < 0.85 else Fr(round(rng.uniform(40, 300), 2)).limit_denominator(100)
+        tempo.append((b, bpm))
+    # rows: every position once, tied positions two or three times (each with its own bpm)
+    rows = [[k, bpm] for k, (_, bpm) in enumerate(tempo)]            # [position index, bpm]
+    tied = rng.sample(range(len(tempo)), min(ngroups, len(tempo)))
+    for k in tied:
+        for _ in range(2 if len(rows) < n - 1 and rng.random() < 0.3 else 1):
+            other = [v for v in E_BPMS if Fr(v) != tempo[k][1]]
+            rows.append([k, Fr(rng.choice(other))])
+    # in-memory order: shuffled / reversed / sorted blocks stacked one after the other / a few rows moved
+    how = rng.choice(["shuffle", "shuffle", "shuffle", "reverse", "blocks", "few"])
+    if how == "shuffle":
+        rng.shuffle(rows)
+    elif how == "reverse":
+        rng.shuffle(rows)
+        rows.sort(key=lambda r: -r[0])
+    elif how == "blocks":
+        rng.shuffle(rows)
+        nb = rng.randint(2, 4)
+        tagged = [(rng.randrange(nb), r) for r in rows]
+        rows = [r for blk in range(nb) for r in sorted([r for t, r in tagged if t == blk], key=lambda r: r[0])]
+    else:
+        rng.shuffle(rows)
+        rows.sort(key=lambda r: r[0])
+        for _ in range(rng.randint(1, 3)):
+            r = rows.pop(rng.randrange(len(rows)))
+            rows.insert(rng.randrange(len(rows) + 1), r)
+    # the tempo in force: of the rows of one position, the last one in the in-memory order
+    for k, bpm in rows:
+        tempo[k] = (tempo[k][0], bpm)
+    t0 = Fr(rng.choice([0, 0, -500, 250, 1234.5, -37.25, 1000.25]))
+    style = rng.choice(["grid", "grid", "grid", "capped", "offgrid"])
+    last_m = int(tempo[-1][0] // 4) + 2
+    charts = []
+    for _ in range(rng.choice([1, 1, 2])):
+        want = rng.choice([3, 6, 12, 25]) if tier != "thorough" else rng.choice([3, 6, 12, 25, 50])
+        ms_ = sorted(set(rng.randrange(0, last_m + 1) for _ in range(want)))
+        # at least one measure after the last tied position (what comes after a tie is what a swapped tie moves)
+        if tied:
+            ms_ = sorted(set(ms_) | {int(tempo[max(tied)][0] // 4) + rng.randint(0, 1)})
+        charts.append(gen_chart(rng, tempo, t0, style, measures=ms_))
+    key_of = {}
+    for pos, (k, bpm) in enumerate(rows):
+        key_of.setdefault(k, []).append((pos, bpm))
+    bpms = []
+    for k, (bt, _) in enumerate(tempo):
+        for pos, bpm in key_of[k]:
+            bpms.append([R(float(time_of(tempo, t0, bt))), R(float(bpm)), pos])
+    hdr = dict(strs={a: (rng.choice(WORDS) if rng.random() < 0.3 else "") for a in ATTR.values()},
+               offset=bpms[0][0], sample_start=R(rng.choice([0.0, 12500.0])),
+               sample_length=R(rng.choice([10.0, 10000.0])), selectable=rng.random() < 0.6)
+    case = dict(claim="write", origin="built", mode=mode, style=style, hdr=hdr, bpms=bpms, charts=charts,
+                rate=R(rng.choice([0.5, 2.0, 1.5])) if rng.random() < 0.08 else None)
+    if rng.random() < 0.1:
+        case["rate"] = None
+        case["history"] = [rng.choice([["rewrite"], ["scale_bpm", R(2.0)], ["shift_all", R(250.0)], ["rate", R(2.0)]])]
+    return case
+
+
+def gen_search(rng, tier, i):
+    """the stream used when the correspondence is broken and a failing input is looked for: the classes in which a
+    change of the writer's bookkeeping shows (long unsorted tempo lists with ties; the main stream otherwise)"""
+    if rng.random() < 0.5:
+        return with_entry(rng, gen_long(rng, tier))
+    return gen(rng, tier, i)
+
+
+def with_entry(rng, case):
+    """the entry point: `SMMapSet.write()` or `SMMapSet.write_file(path)` (the file is read back as it is on disk, and
+    the read-back clause goes through `SMMapSet.read_file`)"""
+    if rng.random() < 0.3:
+        case["entry"] = "file"
+    return case
+
+
 def gen(rng, tier, i):
+    return with_entry(rng, gen_main(rng, tier, i))
+
+
+def gen_main(rng, tier, i):
     x = rng.random()
+    if x >= 0.93:
+        return gen_long(rng, tier)
     if x < 0.22:
         # a mapset obtained by reading a generated text (the C02 generator's main stream)
         for _ in range(20):
@@ -245,6 +344,61 @@ def corpus():
                     bpms=[[R(-500), R(37)], [R(1), R(37)]], bpm_perm=[1, 0],
                     charts=[dict(type="dance-threepanel", desc="d", diff="H", meter=0, radar=[R(0.0)], notes=[hit(0, 3450)])],
                     rate=None, history=[["append_bpm", [[300, 1], [240, 1]]]]))
+    # ---- the class LONG UNSORTED LISTS WITH TIES, by hand: rows at one offset, the later row of the list is in force
+    # (Props/C03 `tie_later_wins`, `tie_order_counterexample`): 8=60 then 8=240 is 240 bpm from beat 8 on
+    tie_notes = [hit(0, 0), hit(1, 4000), hit(2, 4500), ["hold", 3, R(5000.0), R(750.0)], hit(0, 6000)]
+    out.append(dict(claim="write", origin="built", mode="line", style="grid", hdr=hdr0,
+                    bpms=[[R(0), R(120), 0], [R(4000), R(60), 1], [R(4000), R(240), 2]],
+                    charts=[dict(type="dance-single", desc="", diff="Easy", meter=1, radar=[R(0.0)] * 5, notes=tie_notes)], rate=None))
+    # the same rows listed out of time order (the overriding row first in the list, then the first tempo point)
+    out.append(dict(claim="write", origin="built", mode="line", style="grid", hdr=hdr0,
+                    bpms=[[R(0), R(120), 1], [R(4000), R(60), 0], [R(4000), R(240), 2]],
+                    charts=[dict(type="dance-single", desc="", diff="Easy", meter=1, radar=[R(0.0)] * 5, notes=tie_notes)], rate=None))
+    # 24 rows, reversed in blocks, three tied positions (one of them three rows deep), objects after each of them
+    rows24 = []
+    t, cur = Fr(0), None
+    for i in range(20):
+        if cur is not None:
+            t += 4 * Fr(60000) / cur
+        cur = Fr(120 if i % 2 == 0 else 240)
+        rows24.append([t, cur, 100 - i])
+        if i in (3, 11, 17):
+            cur = Fr(60)
+            rows24.append([t, cur, 200 + i])
+        if i == 11:
+            cur = Fr(150)
+            rows24.append([t, cur, 300])
+    last_t = t
+    out.append(dict(claim="write", origin="built", mode="line", style="grid", hdr=hdr0,
+                    bpms=[[R(float(o)), R(float(b)), k] for o, b, k in rows24],
+                    charts=[dict(type="dance-single", desc="", diff="Easy", meter=1, radar=[R(0.0)] * 5,
+                                 notes=[hit(0, 0)] + [hit(i % 4, float(o) + 60000.0 / float(b) * 1.5) for i, (o, b, k) in enumerate(rows24)
+                                                      if k >= 200 and not (k == 211)] +
+                                       [["roll", 2, R(float(last_t) + 250.0), R(1000.0)]])], rate=None))
+    # ---- the hypotheses of `write_read_exact` that are necessary, replayed on the implementation: the model's
+    # counterexamples of Props/C03 (`cap_counterexample`, `collision_counterexample`, `overlap_counterexample`,
+    # `offset_counterexample`) as inputs - (C) compares the implementation's text with the model's character for character
+    # objects at beats 5/9, 1/32, 1/5 of one measure (denominators 36, 128, 20): 384 rows, the first one at row 53 = beat 53/96
+    out.append(dict(claim="write", origin="built", mode="line", style="capped", hdr=hdr0, bpms=[[R(0), R(120)]],
+                    charts=[dict(type="dance-single", desc="", diff="Easy", meter=1, radar=[R(0.0)] * 5,
+                                 notes=[hit(0, 2500.0 / 9), hit(1, 500.0 / 32), hit(2, 100.0)])], rate=None))
+    # two objects in one (row, column): the later one of the writer's order is the one written
+    out.append(dict(claim="write", origin="built", mode="line", style="grid", hdr=hdr0, bpms=[[R(0), R(120)]],
+                    charts=[dict(type="dance-single", desc="", diff="Easy", meter=1, radar=[R(0.0)] * 5,
+                                 notes=[hit(1, 0), ["mine", 1, R(0), R(0)], hit(2, 500)])], rate=None))
+    # two holds of one column that overlap: head, head, tail, tail in the column
+    out.append(dict(claim="write", origin="built", mode="line", style="grid", hdr=hdr0, bpms=[[R(0), R(120)]],
+                    charts=[dict(type="dance-single", desc="", diff="Easy", meter=1, radar=[R(0.0)] * 5,
+                                 notes=[["hold", 0, R(0), R(1000.0)], ["hold", 0, R(500.0), R(1000.0)]])], rate=None))
+    # #OFFSET different from the first tempo point (outside the property's domain): everything is written 1 s off
+    out.append(dict(claim="write", origin="built", mode="line", style="grid", hdr=dict(hdr0, offset=R(1000)), bpms=[[R(0), R(120)]],
+                    charts=[dict(type="dance-single", desc="", diff="Easy", meter=1, radar=[R(0.0)] * 5,
+                                 notes=[hit(0, 0), hit(1, 2000)])], rate=None))
+    # an object before the first tempo point (hypothesis `t0 <= n.time` of ChartWritten): the writer raises IndexError,
+    # and so does the model (`Err.index`)
+    out.append(dict(claim="write", origin="built", mode="line", style="grid", hdr=dict(hdr0, offset=R(1000)), bpms=[[R(1000), R(120)]],
+                    charts=[dict(type="dance-single", desc="", diff="Easy", meter=1, radar=[R(0.0)] * 5,
+                                 notes=[hit(0, 500), hit(1, 1500)])], rate=None))
     # two tempo points one millisecond apart snap to the same beat: outside the domain, must not be judged
     out.append(dict(claim="write", origin="built", mode="line", style="grid", hdr=hdr0, bpms=[[R(0), R(37)], [R(1), R(30)]],
                     charts=[dict(type="kb7-single", desc="a", diff="B", meter=0, radar=[R(0.0)], notes=[])], rate=None))
@@ -253,14 +407,23 @@ def corpus():
 
 def valid(case):
     try:
-        if case.get("claim") != "write":
+        if case.get("claim") != "write" or case.get("entry", "text") not in ("text", "file"):
             return False
         if case["origin"] == "read":
             return isinstance(case["text"], str) and "\\" not in case["text"]
         if not case["bpms"] or not case["charts"]:
             return False
         offs = [F(b[0]) for b in case["bpms"]]
-        if any(not (20 <= F(b[1]) <= 2000) for b in case["bpms"]) or offs != sorted(offs) or len(set(offs)) != len(offs):
+        keyed = any(len(b) > 2 for b in case["bpms"])
+        if any(len(b) not in (2, 3) or (len(b) == 3 and (not isinstance(b[2], int) or isinstance(b[2], bool)))
+               for b in case["bpms"]):
+            return False
+        # rows are listed in time order; rows at one offset (ties) only in the keyed form, where the keys give the
+        # in-memory order (the later row is the one in force)
+        if any(not (20 <= F(b[1]) <= 2000) for b in case["bpms"]) or offs != sorted(offs) or \
+                (len(set(offs)) != len(offs) and not keyed):
+            return False
+        if keyed and case.get("bpm_perm") is not None:
             return False
         if offs[-1] - offs[0] > 600000 or abs(offs[0]) > 10 ** 6:
             return False
@@ -356,6 +519,10 @@ def ordered_bpms(case):
     """the tempo rows in the order the case asks for (`bpm_perm`: a permutation of their indices; rows out of time
     order are what `append(..., sort=False)` / stacking produce)"""
     b = case["bpms"]
+    if any(len(r) > 2 for r in b):
+        # rows [offset, bpm, key]: the in-memory order is the stable order of the keys (a row without one keeps its index)
+        ks = [(r[2] if len(r) > 2 else i) for i, r in enumerate(b)]
+        b = [b[i][:2] for i in sorted(range(len(b)), key=lambda i: ks[i])]
     perm = case.get("bpm_perm")
     if isinstance(perm, list) and sorted(perm) == list(range(len(b))):
         return [b[i] for i in perm]
@@ -446,6 +613,15 @@ def extract(ms):
     hdr = dict(strs={a: getattr(ms, a) for a in ATTR.values()}, offset=R(float(ms.offset)),
                sample_start=R(float(ms.sample_start)), sample_length=R(float(ms.sample_length)), selectable=bool(ms.selectable))
     return dict(hdr=hdr, charts=charts)
+
+
+def effective_rows(rows):
+    """the tempo points in force of a tempo list given in in-memory order ([[offset, bpm], ...] on the wire): sorted by
+    offset, stably; of several rows at exactly one offset the last one.  Returns ([(offset, bpm)], their row indices)"""
+    vals = [(F(o), F(b)) for o, b in rows]
+    order = sorted(range(len(vals)), key=lambda i: vals[i][0])
+    keep = [i for k, i in enumerate(order) if k + 1 == len(order) or vals[order[k + 1]][0] != vals[i][0]]
+    return [vals[i] for i in keep], keep
 
 
 def overlapping(notes):
@@ -600,7 +776,7 @@ def run(case, drv):
     logging.disable(logging.WARNING)
     tags = [case["origin"]] + ([case["style"], case["mode"]] if case["origin"] in ("built", "convert") else []) + \
         (["via-" + case["via"]] if case.get("via") else []) + (["rate"] if case.get("rate") else []) + \
-        (["bpm-unsorted"] if case.get("bpm_perm") and case["bpm_perm"] != sorted(case["bpm_perm"]) else [])
+        (["bpm-unsorted"] if case["origin"] == "built" and [F(r[0]) for r in ordered_bpms(case)] != sorted(F(r[0]) for r in case["bpms"]) else [])
     try:
         ms, ms_pre = build_mapset(case)
     except Exception as e:
@@ -630,13 +806,38 @@ def run(case, drv):
 
 
 def _judge(case, ms, ms_pre, drv, tags):
-    """one write of `ms`: (C) the text's structure vs the model, (S) the text denotes the mapset"""
+    """one write of `ms` through the case's entry point"""
+    import os
+    import tempfile
+    path = None
+    if case.get("entry") == "file":
+        fd, path = tempfile.mkstemp(prefix="c03-", suffix=".sm", dir="/tmp")
+        os.close(fd)
+        tags.append("write_file")
+    try:
+        return _judge_at(case, ms, ms_pre, drv, tags, path)
+    finally:
+        if path is not None:
+            try:
+                os.remove(path)
+            except OSError:
+                pass
+
+
+def _judge_at(case, ms, ms_pre, drv, tags, path):
+    """one write of `ms`: (C) the text's structure vs the model, (S) the text denotes the mapset.  `path`: write with
+    `write_file(path)` and take the text from the file as it is on disk (no newline translation on reading)"""
     detail = {}
     content = extract(ms)
     # the property's domain (#OFFSET = first tempo point) is a condition on the mapset before a rate change
     dom_src = extract(ms_pre) if ms_pre is not None else content
     try:
-        text = ms.write()
+        if path is None:
+            text = ms.write()
+        else:
+            ms.write_file(path)
+            with open(path, "r", encoding="utf8", newline="") as f:
+                text = f.read()
         impl = ("ok", text)
     except Exception as e:
         impl = ("err", c02.err_class(e), type(e).__name__ + ": " + str(e)[:200])
@@ -653,11 +854,20 @@ def _judge(case, ms, ms_pre, drv, tags):
         all(F(n[2]) >= first_off - Fr(1, 2 ** 20) and 0 <= n[1] < KEYED[c["chart_type"]]
             for c in content["charts"] for n in c["notes"])
     # two tempo points closer than the snap grid / the six decimals resolve are written at one beat: such a tempo list
-    # has no .sm form (domain: tempo points at distinct written beats)
+    # has no .sm form (domain: tempo points at distinct written beats).  Rows at exactly one offset are something else:
+    # they are one tempo point, the row that comes later in the list being in force (`to_timing_map` sorts stably and
+    # the sweep finds the last row of equal offsets; in the file a later `#BPMS` entry on a beat replaces an earlier one)
     wb = [round6(F(x)) for x in ((model.get("ok") or {}).get("bpm_beats") or [])]
-    if len(set(wb)) < len(wb):
+    rows0 = content["charts"][0]["bpms"] if content["charts"] else []
+    n_offs = len({F(b[0]) for b in rows0})
+    has_ties = n_offs < len(rows0)
+    if len(wb) == len(rows0) and len(set(wb)) < n_offs:
         in_q = False
         tags.append("tempo-coincide")
+    if has_ties:
+        tags.append("tempo-tie")
+    if len(rows0) >= 17:
+        tags.append("tempo-long")
     if impl[0] == "err":
         agree = model.get("err") == impl[1]
         if in_q:
@@ -665,9 +875,9 @@ def _judge(case, ms, ms_pre, drv, tags):
             why.append("writer raised: " + impl[2])
         detail = dict(impl=list(impl), model=model)
         return dict(claim="write", ok=ok, agree=agree, dom=False, kf=None, tags=tags + ["impl-raises"], nontrivial=False, detail=detail)
-    den = drv.call("c02.denote", text=text)["ok"]
+    den = drv.call("c03.denote", text=text)["ok"]
     # snapping discontinuities of THIS snapshot (every write of a history is classified on the chart as it is now)
-    bp_now = sorted((F(o), F(b)) for o, b in content["charts"][0]["bpms"]) if content["charts"] else []
+    bp_now = effective_rows(content["charts"][0]["bpms"])[0] if content["charts"] else []
     ties = [bool(bp_now) and all(b > 0 for _, b in bp_now) and chart_ties(bp_now, c02.jnotes(c["notes"]))
             for c in content["charts"]]
     # ---------------- (C) structure of the text vs the model
@@ -755,7 +965,8 @@ def _judge(case, ms, ms_pre, drv, tags):
     nontrivial = False
     dom = False
     if in_q:
-        if den is None or not den["charts_well_formed"] or not den["tempo_ok"] or den["offset_sec"] is None:
+        if den is None or not den["charts_well_formed"] or den["offset_sec"] is None or \
+                not (den["tempo_ok_weak"] if has_ties else den["tempo_ok"]):
             ok = False
             why.append("written text is not a well-formed .sm (MSD values / #NOTES parameters / #BPMS / #OFFSET)")
         elif len(den["charts"]) != len(content["charts"]):
@@ -784,13 +995,12 @@ def _judge(case, ms, ms_pre, drv, tags):
             if sel != ("YES" if h["selectable"] else "NO"):
                 ok = False
                 why.append("#SELECTABLE written as %r for selectable=%r" % (sel, h["selectable"]))
-            bp = [(F(o), F(b)) for o, b in content["charts"][0]["bpms"]]
-            bp.sort()
+            # the tempo points in force, in time order (of rows at one offset the last one of the list)
+            bp, order = effective_rows(content["charts"][0]["bpms"])
             lines = tempo_on_lines(bp)
             skipped = False
             raw_beats = [F(x) for x in ((model.get("ok") or {}).get("bpm_beats") or [])]
-            order = sorted(range(len(content["charts"][0]["bpms"])), key=lambda i: F(content["charts"][0]["bpms"][i][0]))
-            raw_sorted = [raw_beats[i] for i in order] if len(raw_beats) == len(order) else []
+            raw_sorted = [raw_beats[i] for i in order] if len(raw_beats) == len(content["charts"][0]["bpms"]) else []
             lossy = len(raw_sorted) == len(bp) and any(round6(r) != c for r, c in zip(raw_sorted, true_beats(bp)))
             for n, (cd, cc, dg, tie) in enumerate(zip(den["charts"], content["charts"],
                                                       (model.get("ok") or {}).get("diag") or [None] * len(den["charts"]), ties)):
@@ -840,7 +1050,7 @@ def _judge(case, ms, ms_pre, drv, tags):
                             why.append("chart %d: %s col %d tail at %.6f ms written at %.6f ms" % (n, a[0], a[1], float(ea), float(eb)))
                             break
             # reading the written text back gives these objects again
-            back = c02.impl_read(text)
+            back = c02.impl_read(text, path=path)
             if back[0] != "ok" and skipped:
                 pass
             elif back[0] != "ok":
@@ -860,7 +1070,7 @@ def _judge(case, ms, ms_pre, drv, tags):
                                       or case.get("style") == "capped")
             all_on = all(on_grid(bp, F(n[2])) and (n[0] not in ("hold", "roll") or on_grid(bp, F(n[2]) + F(n[3])))
                          for c in content["charts"] for n in c["notes"])
-            dom = lines and all_on and not any(ties) and not skipped and \
+            dom = lines and all_on and not any(ties) and not skipped and not has_ties and \
                 all(bool(d and d["exact_rows"] and not d["collision"]) for d in ((model.get("ok") or {}).get("diag") or [None]))
     kf = None
     if not ok:
